@@ -51,6 +51,8 @@ def prim_list_types():
 
 
 def make_case(i, rng, tier):
+    if rng.random() < 0.012:
+        return cc_arg_case(rng)
     if rng.random() < 0.015 and prim_list_types():
         from .. import gen
         k = gen.Knobs(rng)
@@ -112,6 +114,43 @@ def make_case(i, rng, tier):
     return common.mk_case(rng, inp, data, recs)
 
 
+def cc_arg_case(rng):
+    """a successful response decoded on its own with a *reserved* number as its command code (the argument, typed TPM_CC):
+    gaps of the table, the neighbours of its ends, zero, a real command code with one higher bit set or + 0x10000 - the
+    layout is unknowable, so strict decoding owes the value error for `.commandCode` right after the header"""
+    L = layout()
+    ccs = sorted(L.commands)
+    real_cc = rng.choice(ccs)
+    inp = common.gen_input(rng, ("response", real_cc, rng.choice((0, 0, 1)), False, False))
+    base = rng.choice(ccs)
+    cands = [base | (1 << rng.randrange(16, 32)), base + 0x10000, base | 0x20000000, ccs[0] - 1, ccs[-1] + 1, 0, 0xFFFFFFFF,
+             rng.choice([v for v in range(ccs[0], ccs[-1]) if v not in L.commands] or [0])]
+    bad = rng.choice([v for v in cands if v not in L.commands and 0 <= v <= 0xFFFFFFFF])
+    t = common.spec("main", "Response", inp["data"], bad, None, strict=rng.random() < 0.8, source=rng.choice(("bytes", "counting", "gen")))
+    return {"input": {"root": "Response", "cc": real_cc, "enc": None, "label": "cc-argument:%s" % inp["label"], "mode": "cc-arg", "bad": bad, "orig": inp["data"].hex()},
+            "faults": [dict(kind="cc-argument", new=bad, cls="argument", depth=0, regions=[])], "tasks": [t], "schedule": {"policy": "sequential"}}
+
+
+def check_cc_arg(case, res):
+    w = common.run_world(case, res)
+    t = w.tasks["main"]
+    inp = case["input"]
+    o = model.decode("Response", bytes.fromhex(inp["orig"]), cc=inp["cc"])
+    k = next(n for n, it in enumerate(o.items) if it[0] == "P" and it[1] == ".responseCode") + 1
+    want_items = [list(real.model_item(it)) for it in o.items[:k]]
+    want_exc = ("ValueConstraintViolatedError", ".commandCode", "TPM_CC", inp["bad"])
+    label = "%s decoded with command code 0x%x" % (inp["label"], inp["bad"])
+    res.count("reserved-command-code-argument")
+    if t.exc_sum is None:
+        res.v("C04.a", "C04.a:accepted:command-code-argument", "%s: accepted (%d events); the number is not a command code, the error owed is %r" % (label, len(t.items), want_exc))
+    elif tuple(t.exc_sum[:4]) != want_exc:
+        res.v("C04.b", "C04.b:details:command-code-argument", "%s: raised %r, expected %r" % (label, t.exc_sum, want_exc))
+    elif [list(x) for x in t.items] != want_items:
+        res.v("C04.c", "C04.c:events:command-code-argument", "%s: %s" % (label, common.show_diff(t.items, want_items, "events before the error vs the header fields")))
+    res.nontrivial("cc-arg", inp["bad"], inp["orig"])
+    return res
+
+
 def probe_values(tname, rng_seed):
     import random
     rng = random.Random(rng_seed)
@@ -126,6 +165,8 @@ def probe_values(tname, rng_seed):
 
 def check_one(case):
     res = Result()
+    if case["input"].get("mode") == "cc-arg":
+        return check_cc_arg(case, res)
     w = common.run_world(case, res)
     # types declared during the history (sim/dyntypes.py): every 40-th run or so, derived from the case so that a replay needs nothing else
     if int(__import__("hashlib").sha256(repr(sorted((t_["id"], t_.get("data", "")[:48]) for t_ in case["tasks"])).encode()).hexdigest()[:6], 16) % 150 == 0:
